@@ -105,6 +105,10 @@ def ev_expr(e, args):
         return (ev_expr(e[1], args) * e[2]) % W
     if t == "addc":
         return (ev_expr(e[1], args) + e[2]) % W
+    if t == "shl":      # ("shl", e, k): e << k — a left-aligned bytesN / packed high field: symbolic high bits, concrete low tail
+        return (ev_expr(e[1], args) << e[2]) % W
+    if t == "or":       # ("or", e, c)
+        return ev_expr(e[1], args) | (e[2] % W)
     raise ValueError(e)
 
 
@@ -130,7 +134,7 @@ def slot_of(loc, args):
 def expr_symbolic(e):
     if e[0] == "words":
         return any(expr_symbolic(w) for w in e[2])
-    return e[0] == "a" or (e[0] in ("and", "mul", "addc") and expr_symbolic(e[1]))
+    return e[0] == "a" or (e[0] in ("and", "mul", "addc", "shl", "or") and expr_symbolic(e[1]))
 
 
 def loc_symbolic(loc):
@@ -202,6 +206,10 @@ def emit_expr(e):
         return emit_expr(e[1]) + [("push", e[2]), "MUL"]
     if t == "addc":
         return emit_expr(e[1]) + [("push", e[2]), "ADD"]
+    if t == "shl":
+        return emit_expr(e[1]) + [("push", e[2]), "SHL"]
+    if t == "or":
+        return emit_expr(e[1]) + [("push", e[2] % W), "OR"]
     raise ValueError(e)
 
 
@@ -351,6 +359,14 @@ class LocGen:
     def key_expr(self, small=True):
         r = self.rng
         k = r.random()
+        if self.nargs and r.random() < 0.12:      # a partly symbolic key word: left-aligned bytesN / packed high field
+            x = ("a", r.randrange(self.nargs))
+            j = r.random()
+            if j < 0.5:
+                return ("shl", x, r.choice([8, 96, 128, 248]))
+            if j < 0.8:
+                return ("and", x, W - (1 << (256 - 8 * r.choice([1, 4, 20]))))
+            return ("or", ("shl", x, 96), r.choice([1, 5]))
         if k < 0.45 and self.nargs:
             return ("a", r.randrange(self.nargs))
         if k < 0.55 and self.nargs:
@@ -476,6 +492,8 @@ class LocGen:
                 key = ("words", key[1], ws)
             elif loc[3] == 32 and key[0] in ("a", "c"):
                 key = flip(key)
+            elif loc[3] == 32 and expr_symbolic(key) and key[0] in ("shl", "or", "and") and r.random() < 0.6:
+                key = ("c", ev_expr(key, [r.choice([0, 1, 2])] * max(self.nargs, 1)))     # the all-concrete spelling for x ∈ {0,1,2}
             return ("map", key, self.respell(loc[2]), loc[3])
         if t == "arr":
             return ("arr", self.respell(loc[1]))
@@ -1127,6 +1145,33 @@ def nested_long_key_case():
                 name="long-key-preimage-128-nested-mapping")
 
 
+def partial_key_shapes():
+    """key WORDS that are part symbolic, part concrete (x = a0): name -> (expr, value of x to pin)"""
+    hi = lambda n: W - (1 << (256 - 8 * n))          # mask of the n high bytes
+    x = ("a", 0)
+    return {
+        "shl8": (("shl", x, 8), 0x1234), "shl96-address": (("shl", x, 96), 0xCAFE00000000000000000000000000000000BEEF),
+        "shl128": (("shl", x, 128), 0x77), "shl248-bytes1": (("shl", x, 248), 0xAB),
+        "bytes4-left-aligned": (("and", x, hi(4)), 0xDEADBEEF << 224), "bytes20-left-aligned": (("and", x, hi(20)), (0xCAFE << 240) | (7 << 96)),
+        "packed-address-uint96": (("or", ("shl", x, 96), 5), 0xCAFE00000000000000000000000000000000BEEF),
+        "packed-address-uint96-big": (("or", ("shl", x, 96), (1 << 95) | 1), 3),
+    }
+
+
+def partial_key_case(shape, transient=False):
+    """mapping at slot 6 keyed by a partly symbolic word (halmos / z3 merge its concrete low tail with the concrete slot word:
+    the 64-byte preimage is Concat(sym_N, const_(512-N)), not split at bit 256) against the all-concrete spelling of the same
+    key: store-through-one / load-through-the-other, overwrite; pinned by the input first, then by a path equality"""
+    e, v = partial_key_shapes()[shape]
+    kv = ev_expr(e, (v,))
+    sym, conc, other = ("map", e, ("lit", 6), 32), ("map", ("c", kv), ("lit", 6), 32), ("map", ("c", kv ^ (1 << 255)), ("lit", 6), 32)
+    st, ld = ("tstore", "tload") if transient else ("sstore", "sload")
+    return Prog([(st, sym, ("c", 0x2A)), (ld, conc), (ld, other), (st, conc, ("c", 0x2B)), (ld, sym), (st, other, ("c", 0x2C)), (st, sym, ("c", 0x2D)),
+                 (ld, conc), (ld, other), ("require_eq", ("a", 0), v), (ld, conc), (ld, sym), (st, conc, ("c", 0x2E)), (ld, sym),
+                 (ld, ("off", sym, ("c", 1), False)), (st, ("off", sym, ("c", 1), True), ("c", 0x2F)), (ld, ("off", conc, ("c", 1), False))], 1,
+                name=f"partial-key-{shape}" + ("-transient" if transient else ""))
+
+
 def three_ways_cases():
     out = []
     # mapping element with a struct-member offset: runtime hash + 1, 1 + runtime hash, PUSH32 (hash + 1)
@@ -1175,6 +1220,9 @@ def core_directed():
     out.append((packed_concrete_case(), KEY_PACKED))
     for p in branch_prefix_cases():
         out.append((p, None))
+    # key words that are part symbolic / part concrete against the all-concrete spelling
+    for i, shape in enumerate(partial_key_shapes()):
+        out.append((partial_key_case(shape, transient=(i % 4 == 3)), None))
     # bytes keys around the 128-byte preimage limit of sha3_data's hash tracking
     out.append((long_key_case(128), None))
     out.append((nested_long_key_case(), None))
